@@ -581,6 +581,27 @@ impl VisitMut for GuardExits {
         }
     }
 }
+// replace the first statement matching `pat` (searching nested blocks in source order) by `marker`
+fn mark_guard(b: &mut Block, pat: &[PTok], marker: &Stmt) -> bool {
+    struct M<'p> { pat: &'p [PTok], marker: &'p Stmt, done: bool }
+    impl<'p> VisitMut for M<'p> {
+        fn visit_block_mut(&mut self, b: &mut Block) {
+            if self.done { return; }
+            for i in 0..b.stmts.len() {
+                if match_stmt(self.pat, &b.stmts[i], false).is_some() {
+                    b.stmts[i] = self.marker.clone();
+                    self.done = true;
+                    return;
+                }
+                visit_mut::visit_stmt_mut(self, &mut b.stmts[i]);
+                if self.done { return; }
+            }
+        }
+    }
+    let mut m = M { pat, marker, done: false };
+    m.visit_block_mut(b);
+    m.done
+}
 fn apply_guard(b: &mut Block, pat: &[PTok], reset: &[Stmt], acquire: &[Stmt], is_fn_body: bool) -> bool {
     let mut at = None;
     for (i, s) in b.stmts.iter().enumerate() {
@@ -1046,12 +1067,15 @@ fn emit_target(ctx: &mut Ctx, unit: &Unit, t: &Target) -> Emitted {
         }
     }
 
-    // R14 guards (before lowering, on the source statements)
+    // R14 guards: the guard statement is located on the SOURCE statements and replaced by a marker;
+    // the exits of its scope are rewritten after lowering (so that `return` / `?` introduced by
+    // lowering rules are covered too)
+    let mut guard_jobs: Vec<(Vec<PTok>, Vec<Stmt>, Vec<Stmt>)> = Vec::new();
     {
         let visible = unit.visible(&t.spec_file);
         let mut all: Vec<&Rule> = t.rules.iter().collect();
         all.extend(unit.rules.iter().filter(|r| visible.contains(&r.file)));
-        for r in all.iter().filter(|r| r.kind == "guard") {
+        for (gi, r) in all.iter().filter(|r| r.kind == "guard").enumerate() {
             let ts = match instantiate(&r.tpl, &pat::Binds::new()) { Ok(t) => t, Err(m) => die(&format!("{}: {}", r.origin, m)) };
             // `RESET ;; ACQUIRE`: ACQUIRE (optional) replaces the guard statement itself
             let toks: Vec<proc_macro2::TokenTree> = ts.into_iter().collect();
@@ -1067,9 +1091,14 @@ fn emit_target(ctx: &mut Ctx, unit: &Unit, t: &Target) -> Emitted {
             };
             let blk: Block = match syn::parse2(quote!({ #reset_ts })) { Ok(b) => b, Err(e) => die(&format!("{}: guard reset does not parse: {}", r.origin, e)) };
             let acq: Block = match syn::parse2(quote!({ #acq_ts })) { Ok(b) => b, Err(e) => die(&format!("{}: guard acquire does not parse: {}", r.origin, e)) };
-            let applied = apply_guard(&mut block, &r.pat, &blk.stmts, &acq.stmts, true);
+            let marker_src = format!("__vguard_{}();", gi);
+            let marker: Stmt = syn::parse_str(&marker_src).unwrap();
+            let applied = mark_guard(&mut block, &r.pat, &marker);
             if !applied && r.required {
                 die(&format!("lost anchor: target {} — guard statement not found: {}", t.name, r.src));
+            }
+            if applied {
+                guard_jobs.push((pat::parse_pattern(&marker_src).unwrap(), blk.stmts.clone(), acq.stmts.clone()));
             }
         }
     }
@@ -1104,6 +1133,11 @@ fn emit_target(ctx: &mut Ctx, unit: &Unit, t: &Target) -> Emitted {
     drop_g.extend(t.drop_generics.iter().cloned());
     let mut lw = Lower { forloops: 0, drop_generics: drop_g.clone(), rules, counts: vec![0; n_rules], notes: BTreeMap::new() };
     lw.visit_block_mut(&mut block);
+    for (mp, reset, acq) in &guard_jobs {
+        if !apply_guard(&mut block, mp, reset, acq, true) {
+            die(&format!("internal: guard marker lost in target {}", t.name));
+        }
+    }
     // splices anchored on the LOWERED body (statements produced by @stmt/@forloop templates)
     for (k, sp) in t.splices.iter().enumerate() {
         let place = match sp.place.as_str() { "lowered-before" => "before", "lowered-after" => "after", _ => continue };
